@@ -286,6 +286,9 @@ func serviceConfig(c config) string {
 	if c.Boff == 2 {
 		boff = `"initialBackoff":"0.008s","maxBackoff":"0.020s","backoffMultiplier":1.5`
 	}
+	if c.Boff == 3 { // parser-valid but huge: the uncapped product leaves the int64 range at the second retry
+		boff = `"initialBackoff":"0.010s","maxBackoff":"0.020s","backoffMultiplier":1000000000000`
+	}
 	sc := fmt.Sprintf(`{"methodConfig":[{"name":[{}],"retryPolicy":{"maxAttempts":%d,%s,"retryableStatusCodes":[%s]}}]`, c.MaxAtt, boff, codes)
 	if c.ThrMax > 0 {
 		sc += fmt.Sprintf(`,"retryThrottling":{"maxTokens":%d,"tokenRatio":0.5}`, c.ThrMax)
